@@ -260,6 +260,7 @@ def subset_position_cases(run, rng, n):
 
     import flox.core as fc
 
+    coq = []
     for _ in range(n):
         nlab = rng.randint(1, 3)
         nbatch = rng.choice([0, 0, 1])
@@ -296,9 +297,19 @@ def subset_position_cases(run, rng, n):
                 if src != want_src:
                     problem = {"output_position": list(pos), "reads_input_block": None if src is None else list(src), "should_read_input_block": list(want_src)}
                     break
+        # the same layer against the Coq model (NdTake.subset_sources): flat source block of every output position, C order
+        try:
+            grid = tuple(len(c) for c in chunks)
+            srcs = [int(np.ravel_multi_index(tuple(lay.layer[(lay.name,) + pos][1][1:]), grid)) for pos in __import__("itertools").product(*[range(len(c)) for c in lay.chunks])]
+            nat = lambda xs: C.list_lit([f"{int(x)}%nat" for x in xs])  # noqa: E731
+            coq.append(f"({nat(grid)}, {C.list_lit([nat(sel) for sel in full_sel])}, {nat(srcs)}, {nat([len(c) for c in lay.chunks])})")
+        except Exception:  # noqa: BLE001  -- malformed layers are reported by the positional check above
+            pass
         if problem:
             run.violation(dict(desc, property="C09", kind="subset_to_blocks wires a cohort's output block to the wrong input block", **problem,
                                how_to_run="flox.core.subset_to_blocks(dask.array.zeros(shape, chunks=array_chunks), flatblocks, label_block_grid)"), tag="subpos")
+    from tools.props.c07 import eval_simple
+    eval_simple(run, "subset", "subset_case_ok", coq, "correspondence:K2 NdTake.subset_sources == the layer built by flox.core.subset_to_blocks (source block of every output position)")
 
 
 def normalize_index_cases(run, rng, nmax, nrandom):
